@@ -8,7 +8,8 @@ use molt::types::*;
 
 pub const SYNTAX: [&str; 18] = ["{", "}", "[", "]", "\"", "\\", "$", "(", ")", ";", "#", "*", " ", "\n", "a", "1", "x", "-"];
 
-pub const HOSTILE: [&str; 40] = [
+pub const HOSTILE: [&str; 46] = [
+    "a\u{a0}b", "\u{2003}", "x\u{85}", "\u{3000}1", "set x\u{a0}1", "a\u{2028}b",
     "", " ", "a", "0", "1", "-1", "9223372036854775807", "-9223372036854775808", "9223372036854775808", "0x", "0x10",
     "--5", "+-5", "1e", ".", "1.5", "Inf", "NaN", "\\777", "\\x", "\\u12345", "\"", "\"a", "{", "}", "{a", "a}", "{a}b",
     "$a(", "${a", "[", "]", "é", "İstanbul", "😀", "a b", "a\nb", "#", "{*}", "\\",
@@ -118,6 +119,38 @@ pub fn gen(tier: &str, seed: u64) -> Gen {
         }
     }
     fams.push((format!("deep nesting: {} constructs x depths {:?} (bracket nests to 10000 / 30000)", DEEP.len(), all_depths), dn, true));
+    // structured, mostly valid inputs borrowed from the other properties' generators: expression
+    // trees with skipped operands (C12) and every operator (C03), scripts rendered from syntax
+    // trees (C02), string/list commands with non-ASCII operands and index extremes (C19)
+    let take = if thorough { 40_000 } else { 1500 };
+    let mut sn = 0;
+    for (gen12, tag12) in [(super::c12::gen(tier, seed ^ 0x12), "C12"), (super::c03::gen(tier, seed ^ 0x03), "C03")].iter() {
+        let _ = tag12;
+        for c in sample(&mut rng, &gen12.0, take) {
+            let mut script = String::new();
+            for v in c.nth(2).as_list() {
+                script.push_str(&Value::from(vec![Value::from("set"), Value::from(v.nth(0).as_str()), Value::from(v.nth(1).as_str())]).as_str());
+                script.push('\n');
+            }
+            script.push_str(&format!("expr {{{}}}", c.nth(1).as_str()));
+            cases.push(entry("eval", &script));
+            sn += 1;
+        }
+    }
+    let g02 = super::c02::gen(tier, seed ^ 0x02);
+    for c in sample(&mut rng, &g02.0, take) {
+        let scripts = c.nth(1).strs();
+        cases.push(entry("eval", &scripts.join("\n")));
+        sn += 1;
+    }
+    let g19 = super::c19::gen(tier, seed ^ 0x19);
+    for c in sample(&mut rng, &g19.0, 2 * take) {
+        if c.nth(0).as_str() == "cmd" {
+            cases.push(c.clone());
+            sn += 1;
+        }
+    }
+    fams.push(("structured inputs from the generators of C02 (syntax trees), C03/C12 (expression trees, skipped operands), C19 (string and list commands)".to_string(), sn, false));
     // histories: earlier scripts (failing ones included) then a hostile call on the same interpreter
     let hist_pool = [
         "proc f {} {f}; catch {f}", "catch {if 1 \"set x \\{\"}", "set errorInfo(x) 1", "unset -nocomplain errorInfo", "rename set _s; rename _s set",
